@@ -21,6 +21,13 @@ def close_pending(res):
     for o in obs:
         if o.get("oracle_fail"):
             res.violations.append({"what": o["oracle_fail"], "family": "close-pending", "case": o, "signature": "close-pending:%s:%s" % (o["method"], o["answer"])})
+    # the client connection's hook trace of each case is a behaviour of Conn.step (ExecAbandon where the response is dropped)
+    import conncommon
+    bad, items = conncommon.validate(res, [o for o in obs if o.get("events")], res.prop + "cp")
+    for r, d, i, evs in bad:
+        res.mismatches.append({"family": "close-pending", "params": r["params"], "diag": d, "at_event": i, "events_around": evs[max(0, i - 8):i + 3],
+                               "note": "the recorded trace is not a behaviour of Conn.step"})
+    res.add_cov(close_pending_traces_validated=len(items) - len(bad), abandon_events=sum(1 for _, evs, _ in items for e in evs if e.startswith("ExecAbandon")))
     res.add_cov(close_with_unusable_responses=len(obs), pending_until_close=sum(1 for o in obs if not o["returned_before_close"]),
                 close_pending_rule="fake peer answers a subscribing / unary call with nothing, a foreign id or a result that is not a channel id; then the closer is invoked: it returns and the call returns")
 
